@@ -71,59 +71,75 @@ def pureArgs : Stmt → List Var
   | _ => []
 
 /-- SSA order inside a list of pure statements: no statement reads or redefines a variable that a later one defines,
-and no variable is defined twice -/
+no variable is defined twice, no statement reads its own result -/
 def pureSSA : List Stmt → Bool
   | [] => true
-  | s :: r => (pureDef s ++ pureArgs s).all (fun x => !(r.flatMap pureDef).contains x) && pureSSA r
+  | s :: r => (pureDef s ++ pureArgs s).all (fun x => !(r.flatMap pureDef).contains x) &&
+      (pureArgs s).all (fun x => !(pureDef s).contains x) && pureSSA r
+
+/-- the chain is closed: every operand of a chain statement is the induction variable, the result of an earlier chain
+statement (`K`), or a variable that `pre` does not define -/
+def closedChain (predefs : List Var) (iv : Var) : List Stmt → List Var → Bool
+  | [], _ => true
+  | s :: r, K =>
+    match s with
+    | .pure d _ args =>
+      args.all (fun y => K.contains y || (!predefs.contains y && y != iv)) && closedChain predefs iv r (d :: K)
+    | _ => closedChain predefs iv r K
 
 /-- Side conditions under which `Props/C06.lean` proves the rotation correct (all decidable, evaluated on every real
 loop-level step):
 * `pre` (the statements of the body in front of the rotated setup) are pure operations in SSA order that do not define
   the induction variable; the setup names no field twice;
-* every variable the setup or its input chain reads and that is not computed in `pre` (a *free* variable), and the step,
-  are not defined anywhere in the loop body;
+* the cloned input chain is closed and covers every variable of the setup that `pre` defines;
+* the step and the induction variable are not redefined in the loop body;
 * all variables of the loop are below `fresh` (the clones get the ids from `fresh` on). -/
-def loopSide (a : AccId) (fs : List (Field × Var)) (pre after : List Stmt) (lb ub st iv : Var) (fresh : Nat) : Bool :=
+def loopSide (_a : AccId) (fs : List (Field × Var)) (pre after : List Stmt) (lb ub st iv : Var) (fresh : Nat) : Bool :=
   let chain := inputChain pre.reverse (fs.map (·.2))
   let predefs := pre.flatMap pureDef
   let bodyDefs := predefs ++ defsB (Block.ofList after)
-  let reads := fs.map (·.2) ++ chain.flatMap pureArgs
-  let free := reads.filter (fun x => !predefs.contains x && x != iv)
   pre.all isPure && pureSSA pre && !predefs.contains iv &&
   decide (fs.map (·.1)).Nodup &&
-  free.all (fun x => !bodyDefs.contains x) && !bodyDefs.contains st && !bodyDefs.contains iv &&
-  ([lb, ub, st, iv] ++ bodyDefs ++ readsB (Block.ofList (pre ++ after)) ++ reads).all (fun x => x < fresh) &&
-  !touchesB a (Block.ofList pre)
+  closedChain predefs iv chain [iv] &&
+  (fs.map (·.2)).all (fun x => (iv :: chain.flatMap pureDef).contains x || !predefs.contains x) &&
+  !bodyDefs.contains st && !bodyDefs.contains iv && st != iv &&
+  ([lb, ub, st, iv] ++ bodyDefs ++ readsB (Block.ofList (pre ++ after)) ++ fs.map (·.2)).all (fun x => x < fresh)
+
+/-- the guards of the pattern (plus, for the proof variants, `loopSide`) -/
+def rotGuard (chk : Bool) (a : AccId) (fs : List (Field × Var)) (pre after : List Stmt) (lb ub st iv : Var) (fresh : Nat) : Bool :=
+  !(pre.any (touchesS a) || pre.any isLaunch) && (!chk || loopSide a fs pre after lb ub st iv fresh) &&
+  (match launchGuard a after false with
+   | some true => true
+   | _ => false)
+
+/-- what the loop (followed by `r`) is replaced by. `keep`: leave the original setup in place; `ghost`: the two copies are
+ghosts. The real pattern is `keep = false, ghost = false`; the other variants are the intermediate programs of the proof. -/
+def rotWindow (keep ghost : Bool) (a : AccId) (fs : List (Field × Var)) (pre after : List Stmt) (lb ub st iv : Var)
+    (fresh : Nat) (r : Block) : Block :=
+  let chain := inputChain pre.reverse (fs.map (·.2))
+  let mk := fun (x : List (Field × Var)) => if ghost then Stmt.ghost a x else Stmt.setup a x
+  -- copy in front of the loop: iv ↦ lb
+  let c0 := cloneChain chain [(iv, lb)] fresh
+  let s0 := mk (fs.map fun p => (p.1, renameVar c0.2.1 p.2))
+  -- copy at the end of the body: iv ↦ iv + step
+  let next := c0.2.2
+  let c1 := cloneChain chain [(iv, next)] (next + 1)
+  let s1 := mk (fs.map fun p => (p.1, renameVar c1.2.1 p.2))
+  let orig := if keep then [Stmt.setup a fs] else []
+  let body' := Block.ofList (pre ++ (orig ++ (after ++ ((Stmt.pure next .add [iv, st] :: c1.1) ++ [s1]))))
+  (Block.ofList ((c0.1 ++ [s0]) ++ [Stmt.forS lb ub st iv body'])).append r
 
 /-- `i` = index of the loop in its block (anchor), `j` = index of the matched setup in the loop body, `fresh` = first unused
-variable id. `keep`: leave the original setup in place; `ghost`: the two copies are ghosts; `chk`: also require `loopSide`.
-The real pattern is `keep = false, ghost = false` (and `chk = false` for the replay); the other variants are the
-intermediate programs of the correctness proof. -/
+variable id; `chk`: also require `loopSide` (the replay uses `chk = false`). -/
 def loopOverlapGen (keep ghost chk : Bool) (j fresh : Nat) (_F : Facts) : Block → Nat → Option Block
   | .cons s r, 0 =>
     match s with
     | .forS lb ub st iv body =>
-      let l := body.toList
-      match l.drop j with
+      match body.toList.drop j with
       | .setup a fs :: after =>
-        let pre := l.take j
-        if pre.any (touchesS a) || pre.any isLaunch then none else
-        if chk && !loopSide a fs pre after lb ub st iv fresh then none else
-        match launchGuard a after false with
-        | some true =>
-          let chain := inputChain pre.reverse (fs.map (·.2))
-          let mk := fun (x : List (Field × Var)) => if ghost then Stmt.ghost a x else Stmt.setup a x
-          -- copy in front of the loop: iv ↦ lb
-          let c0 := cloneChain chain [(iv, lb)] fresh
-          let s0 := mk (fs.map fun p => (p.1, renameVar c0.2.1 p.2))
-          -- copy at the end of the body: iv ↦ iv + step
-          let next := c0.2.2
-          let c1 := cloneChain chain [(iv, next)] (next + 1)
-          let s1 := mk (fs.map fun p => (p.1, renameVar c1.2.1 p.2))
-          let orig := if keep then [Stmt.setup a fs] else []
-          let body' := Block.ofList (pre ++ orig ++ after ++ [Stmt.pure next .add [iv, st]] ++ c1.1 ++ [s1])
-          some ((Block.ofList (c0.1 ++ [s0, Stmt.forS lb ub st iv body'])).append r)
-        | _ => none
+        if rotGuard chk a fs (body.toList.take j) after lb ub st iv fresh then
+          some (rotWindow keep ghost a fs (body.toList.take j) after lb ub st iv fresh r)
+        else none
       | _ => none
     | _ => none
   | .cons s r, i+1 => (loopOverlapGen keep ghost chk j fresh _F r i).map fun r' => .cons s r'
